@@ -18,6 +18,51 @@ class Missing(Exception):
     pass
 
 
+# ----------------------------------------------------------------------------------------------------
+# Tolerance to harmless source changes (notes/ROBUSTNESS.txt).  Every primitive extraction records what it
+# found under a key (file + what was looked for).  `--write-baseline` stores these in
+# tools/consts_baseline.json (committed; the values of the tree the theorems were last proved against).
+# When a primitive can no longer LOCATE its constant, the baseline value is used and the fact is reported
+# (PINNED): the theorem is then tied to the code by the correspondence run only.  A value that is located
+# and DIFFERS is emitted as found, so the theorems that mention it break.  If the translator fails as a
+# whole, the baseline Consts.v is emitted (tools/Consts.baseline.v) and the failure is reported.
+# ----------------------------------------------------------------------------------------------------
+BASELINE_PATH = os.path.join(os.path.dirname(os.path.abspath(__file__)), "consts_baseline.json")
+BASELINE_V = os.path.join(os.path.dirname(os.path.abspath(__file__)), "Consts.baseline.v")
+STATUS_PATH = os.path.join(os.path.dirname(os.path.abspath(__file__)), "..", "coq", "Generated", "consts_status.json")
+FOUND = {}
+PINNED = []
+try:
+    import json as _json
+    BASELINE = _json.load(open(BASELINE_PATH)) if os.path.exists(BASELINE_PATH) else {}
+except Exception:
+    BASELINE = {}
+
+
+def tolerant(keyfmt):
+    """decorator: on Missing, fall back to the baseline value recorded for the same call"""
+    def deco(fn):
+        def wrapper(*a, **kw):
+            parts = [str(x) for x in a if isinstance(x, (str, int))]
+            key = keyfmt + "|" + "|".join(parts)[:300]
+            try:
+                v = fn(*a, **kw)
+                FOUND[key] = v
+                return v
+            except Missing as e:
+                if key in BASELINE:
+                    PINNED.append("%s -> pinned baseline value %r (%s)" % (key, BASELINE[key], e))
+                    v = BASELINE[key]
+                    # keep env in step for rust_int-style helpers
+                    for x in a:
+                        if isinstance(x, dict) and len(a) >= 2 and isinstance(a[1], str) and isinstance(v, int):
+                            x[a[1]] = v
+                    return v
+                raise
+        return wrapper
+    return deco
+
+
 _cache = {}
 NOTES = []   # constants that could not be located and were pinned to their documented value
 
@@ -59,6 +104,7 @@ def eval_int(expr, env):
     return int(eval(e.replace("/", "//"), {"__builtins__": {}}, {}))
 
 
+@tolerant("rust_const")
 def rust_const(rel, name, env=None):
     """`const NAME: T = expr;` (pub or not, possibly inside an impl) -> raw expr text"""
     m = re.search(r"\bconst\s+%s\s*:\s*[^=;]+?=\s*(.*?);" % re.escape(name), src(rel), flags=re.S)
@@ -67,12 +113,14 @@ def rust_const(rel, name, env=None):
     return m.group(1).strip()
 
 
+@tolerant("rust_int")
 def rust_int(rel, name, env):
     v = eval_int(rust_const(rel, name), env)
     env[name] = v
     return v
 
 
+@tolerant("rust_str")
 def rust_str(rel, name, nth=0):
     """string constant; nth selects among cfg-duplicated definitions (0 = first = windows in
     this repo's convention `#[cfg(windows)] ... #[cfg(not(windows))] ...`)."""
@@ -89,6 +137,7 @@ def rust_str(rel, name, nth=0):
     return bytes(ms[0][1], "utf-8").decode("unicode_escape")
 
 
+@tolerant("regex_int")
 def regex_int(rel, pattern, env, what):
     m = re.search(pattern, src(rel), flags=re.S)
     if not m:
@@ -96,6 +145,7 @@ def regex_int(rel, pattern, env, what):
     return eval_int(m.group(1), env)
 
 
+@tolerant("regex_str")
 def regex_str(rel, pattern, what):
     m = re.search(pattern, src(rel), flags=re.S)
     if not m:
@@ -626,15 +676,36 @@ def generate():
 
 
 def main():
+    import json
+    status = {"translator_error": None, "pinned": [], "notes": []}
     try:
         text, ints, strs, _ = generate()
     except Missing as e:
-        print("gen_consts: MISSING: %s" % e, file=sys.stderr)
-        return 2
+        # whole-translator fallback: the last proved constants, reported as such
+        if os.path.exists(BASELINE_V) and "--strict" not in sys.argv:
+            text = open(BASELINE_V).read()
+            ints, strs = {}, {}
+            status["translator_error"] = str(e)
+            print("gen_consts: TRANSLATOR FAILED (%s): emitting the baseline constants (PINNED); the theorems are "
+                  "tied to the code by the correspondence run only" % e)
+        else:
+            print("gen_consts: MISSING: %s" % e, file=sys.stderr)
+            return 2
+    status["pinned"] = list(PINNED)
+    status["notes"] = list(NOTES)
     for n in NOTES:
         print("gen_consts: NOTE: %s" % n)
+    for n in PINNED:
+        print("gen_consts: PINNED: %s" % n)
     out = os.path.normpath(OUT)
     os.makedirs(os.path.dirname(out), exist_ok=True)
+    if "--write-baseline" in sys.argv:
+        if status["translator_error"] or PINNED:
+            print("gen_consts: refusing to write a baseline from a run with pinned values", file=sys.stderr)
+            return 2
+        json.dump({k: v for k, v in FOUND.items() if isinstance(v, (int, str))}, open(BASELINE_PATH, "w"), indent=0, sort_keys=True)
+        open(BASELINE_V, "w").write(text)
+        print("gen_consts: baseline written (%d primitive values)" % len(FOUND))
     old = open(out).read() if os.path.exists(out) else None
     if old != text:
         with open(out, "w") as f:
@@ -642,6 +713,8 @@ def main():
         print("gen_consts: wrote %s (%d ints, %d strings)" % (out, len(ints), len(strs)))
     else:
         print("gen_consts: unchanged")
+    with open(os.path.normpath(STATUS_PATH), "w") as f:
+        json.dump(status, f, indent=1)
     return 0
 
 
